@@ -24,6 +24,7 @@ META = {
 THEOREMS = [
     "FileWrite.C01_blocks_general",
     "FileWrite.C01_blocks",
+    "FileWrite.C01_write_file",
     "FileWrite.fold_card",
     "FileWrite.fold_block",
     "FileWrite.cardOKb_iff",
